@@ -146,6 +146,10 @@ def kv_scenario(rng, kind='all', n_ops=None, size='quick', **over):
                 lines.append('settle')
             else:
                 lines.append(rng.choice(['restart', 'restart', 'restart lazy']))
+                if rng.random() < 0.3:
+                    # bloom buffers released right after a start: the filters of blobs whose index came from its
+                    # file are then read from that file at the offset recorded while the file was loaded
+                    lines += ['states', f'offload {rng.choice([1, 100000000])} {rng.choice([0, 0, 1])}']
         else:
             k = hot if rng.random() < 0.5 else rng.choice(keys)
             ts = rng.choice(TS_POOL)
@@ -165,7 +169,11 @@ def kv_scenario(rng, kind='all', n_ops=None, size='quick', **over):
 def acct_scenario(rng, size='quick', **over):
     """C15: counters against the directory after every step of a kv history, and across quarantines: a blob file is
     damaged between two sessions (with and without `ignore_corrupted`), then the storage goes on"""
-    if rng.random() < 0.7:
+    y0 = rng.random()
+    if y0 < 0.06:
+        c, line = cfg_line(rng, dup=1, rt='mt', **over)
+        return first_op_race_scenario(rng, line, mk_keys(rng, c['key'], 2))
+    if y0 < 0.7:
         return kv_scenario(rng, 'c15', size=size, **over)
     c, line = cfg_line(rng, dup=1, ignore=rng.choice([0, 0, 1]), **over)
     keys = mk_keys(rng, c['key'], 3)
@@ -507,6 +515,9 @@ def bytes_scenario(rng, size='quick', **over):
             lines += [f'r {kk}', f'ram {kk}']
         lines.append('blobsum')
     lines += ['dmgsweep kinds', 'states']     # every index removed / invalidated: regeneration of the unaltered blobs
+    if rng.random() < 0.5:
+        # metadata maps the script language cannot express (several attributes, empty values, non-ASCII names)
+        lines += [f'metasweep {rng.randrange(1, 10**6)}']
     lines += [f'flipsweep {12 if size == "quick" else 60} {rng.randrange(1, 10**6)}', 'states']
     for kk in keys:
         lines += [f'r {kk}', f'ram {kk}']
@@ -676,6 +687,18 @@ def harm_scenario(rng, size='quick', **over):
             if not damaged:
                 lines.append('nomodel')
                 damaged = True
+            if rng.random() < 0.4:
+                # the header write (or the first sync) of a NEW blob file fails: whatever reached the file stays, its id is
+                # used up - also when the next session finds no newer blob and has to create one
+                lines += ['close_active', 'states', 'snap',
+                          rng.choice(['fault write 0 .blob short:10', 'fault write 0 .blob short:0', 'fault write 0 .blob fail:5',
+                                      'fault sync 0 .blob fail:5']),
+                          rng.choice(['create_active', f'w {rng.choice(keys)} {rng.choice(TS_POOL)} - 10 {seed % 250 + 1}']), 'states', 'snap',
+                          'clearfaults', 'trace', rng.choice(['restart', 'restart lazy']), 'states', 'snap', 'trace',
+                          'close_active', 'states', 'create_active', 'states', 'snap', 'trace']
+                nblobs += 2
+                seed += 1
+                continue
             lines.append(f'fault write {rng.choice([0, 0, 1])} .blob {rng.choice(["fail:28", "short:7", "short:60", "short:300"])}')
             for _ in range(3):
                 lines += [f'w {rng.choice(keys)} {rng.choice(TS_POOL)} {rng.choice(METAS_W)} {rng.choice([10, 300, 5000])} {seed % 250 + 1}', 'states', 'snap']
@@ -920,7 +943,8 @@ def fault_scenario(rng, size='quick', **over):
     """C11: a history; then the n-th file operation of a kind on blob or index files fails (ENOSPC / EIO / short
     write) during a client call or a background dump; queries immediately, after the fault is cleared, after restart"""
     maxdata = rng.choice([1000000, 1000000, 4])
-    c, line = cfg_line(rng, dup=1, maxdata=maxdata, **over)
+    # (a small dirty-byte limit makes writes request the background sync, which then meets the sync faults)
+    c, line = cfg_line(rng, dup=1, maxdata=maxdata, dirty=rng.choice([33554432, 33554432, 33554432, 100, 0]), **over)
     klen = c['key']
     keys = mk_keys(rng, klen, 3)
     absent = absent_keys(rng, klen, keys)
@@ -945,7 +969,8 @@ def fault_scenario(rng, size='quick', **over):
     shape = rng.choice(['w', 'wbig', 'd', 'close_active', 'force always', 'create_active', 'settle', 'restore_active',
                         'fsync', 'mixed', 'mixed'])
     for kind, nth, pat in combos[:rounds]:
-        act = rng.choice(['fail:28', 'fail:5', 'short:0', 'short:7', 'short:60']) if kind == 'write' else rng.choice(['fail:28', 'fail:5'])
+        # (short:9 / short:10: the magic of a blob header complete, its version not)
+        act = rng.choice(['fail:28', 'fail:5', 'short:0', 'short:7', 'short:9', 'short:10', 'short:60']) if kind == 'write' else rng.choice(['fail:28', 'fail:5'])
         # bring the storage into a state where the operation applies
         if shape in ('close_active', 'force always', 'settle', 'fsync', 'd') or (shape == 'mixed' and rng.random() < 0.5):
             lines += [data_op(), 'states']
@@ -1074,6 +1099,7 @@ def cancel_scenario(rng, size='quick', **over):
     rounds = rng.randint(2, 5) if size == 'quick' else rng.randint(4, 14)
     for _ in range(rounds):
         k = rng.choice([1, 1, 2, 2, 3, 4, 5, 7, 10])
+        again = False
         op = rng.choice([data_op(), data_op(), data_op(), 'close_active', 'create_active', 'restore_active'])
         if rng.random() < 0.4:
             # the operation has to load the index of a closed blob from its file (an awaited read) first
@@ -1095,6 +1121,14 @@ def cancel_scenario(rng, size='quick', **over):
                 # the blob's bloom buffer is off-loaded when the delete that has to read its index back is dropped
                 lines += [f'offload 100000000 {rng.choice([0, 0, 1])}', 'states']
                 op = f'd {kk} {ts} - 1'
+            elif z < 0.65:
+                # ... or when the restore that has to read its index back is dropped between the two reads (headers,
+                # then filters); the restore is then repeated and the blob written to, so that the closing dump has to
+                # serialise its filters
+                lines += [f'offload 100000000 {rng.choice([0, 0, 1])}', 'states']
+                op = 'restore_active'
+                k = rng.choice([2, 2, 3])
+                again = True
         if rng.random() < 0.15:
             # a write is dropped while its blocking closure is still inside the file write (held there by a `pause`
             # failpoint); the next write starts before that closure has finished
@@ -1109,11 +1143,18 @@ def cancel_scenario(rng, size='quick', **over):
             lines += ['release 1', 'clearfaults', 'states'] + reads()
             lines += [rng.choice(['restart noidx', 'restart noidx lazy']), 'states', 'corruptedx'] + reads()
             continue
+        if op == 'close_active' and rng.random() < 0.35:
+            # the container of closed blobs already has inner levels (more closed blobs than a filter group holds): the
+            # insertion of the blob being closed walks up through every ancestor
+            for _ in range(c['group'] + rng.choice([0, 1, 2])):
+                lines += [data_op(), 'states', 'close_active', 'states']
         if op == 'close_active' and rng.random() < 0.7:
             # a close that has something to close (and, with k >= 3, is dropped while it works on that blob)
             lines += [data_op(), 'states']
             k = rng.choice([1, 2, 3, 3, 4, 5, 7])
         lines += [f'cancel {k} {op}', 'states'] + reads()
+        if again:
+            lines += ['restore_active', 'states']
         lines += [data_op(), 'states', 'alive']
         if rng.random() < 0.3:
             lines += ['settle', 'states']
@@ -1122,6 +1163,18 @@ def cancel_scenario(rng, size='quick', **over):
             lines += ['restart', 'states'] + reads()
         lines += [rng.choice(['restart noidx', 'restart noidx', 'restart noidx lazy']), 'states', 'corruptedx'] + reads()
     lines += ['restart noidx', 'states', 'corruptedx', 'counts'] + reads()
+    return lines
+
+
+def first_op_race_scenario(rng, line, keys):
+    """no active blob (closed by hand, or a lazy start) and several clients whose first operations start at the same
+    instant (spinning rendezvous on threads of their own): exactly one of them creates the blob; afterwards ids, files
+    and held blobs agree (`fcounts`), also across a restart"""
+    lines = [line, 'states', f'w {keys[0]} 5 - 10 1', 'states', 'nomodel']
+    for rnd in range(rng.choice([8, 10, 12])):
+        lines += [rng.choice(['close_active', 'close_active', 'close_active', 'restart lazy']), 'states',
+                  f'conc {rng.choice([4, 8, 8, 12])} {rng.choice([1, 2])} {rng.randrange(1, 10**6)}', 'states', 'fcounts']
+    lines += ['alive', 'settle', 'restart', 'states', 'fcounts', 'corruptedx']
     return lines
 
 
@@ -1161,6 +1214,8 @@ def conc_scenario(rng, size='quick', **over):
                   'wait 900', 'quiesce', 'clearfaults', 'states', 'fcounts', f'r {keys[0]}', f'ram {keys[0]}', 'alive', 'settle',
                   'restart', 'states', 'fcounts', f'r {keys[0]}', f'ram {keys[0]}']
         return lines
+    if rng.random() < 0.15:
+        return first_op_race_scenario(rng, line.replace(f'maxdata={maxdata}', 'maxdata=1000000').replace('rt=ct', 'rt=mt'), keys)
     lines = [line, 'states']
     for i, k in enumerate(keys):
         lines += [f'w {k} 5 - 10 {i + 1}', 'states']
